@@ -69,6 +69,7 @@ from vgi_rpc.rpc._types import (
 from vgi_rpc.shm import ShmSegment, is_shm_pointer_batch, maybe_write_to_shm, resolve_shm_batch
 from vgi_rpc.utils import (
     ArrowSerializableDataclass,
+    IPCError,
     IpcValidation,
     ValidatedReader,
     _is_optional_type,
@@ -396,20 +397,39 @@ def _read_request(
         decoded keyword arguments.
 
     Raises:
+        pa.ArrowInvalid: If the bytes are not a readable Arrow IPC request
+            (whatever exception type pyarrow used to say so).
         RpcError: If ``vgi_rpc.method`` is missing or if the request
             batch has a non-empty schema but ``num_rows != 1``.
         VersionError: If ``vgi_rpc.request_version`` is missing or
             does not match ``REQUEST_VERSION``.
 
     """
-    reader = ValidatedReader(ipc.open_stream(reader_stream), ipc_validation)
-    batch, custom_metadata = reader.read_next_batch_with_custom_metadata()
-    # Drain past the request stream's EOS *before* any validation that
-    # might raise.  On pipe/subprocess transports the underlying reader
-    # is shared across requests, so a rejected request that left bytes
-    # in the IPC stream would corrupt the next request's framing and
-    # tear down the worker connection.
-    _drain_stream(reader)
+    try:
+        reader = ValidatedReader(ipc.open_stream(reader_stream), ipc_validation)
+        batch, custom_metadata = reader.read_next_batch_with_custom_metadata()
+        # Drain past the request stream's EOS *before* any validation that
+        # might raise.  On pipe/subprocess transports the underlying reader
+        # is shared across requests, so a rejected request that left bytes
+        # in the IPC stream would corrupt the next request's framing and
+        # tear down the worker connection.
+        _drain_stream(reader)
+    except (pa.ArrowInvalid, MemoryError):
+        raise
+    except (pa.ArrowException, IPCError) as exc:
+        # Not only ArrowInvalid means "these bytes are not a readable request":
+        # unknown types / dictionary ids surface as ArrowNotImplementedError /
+        # ArrowKeyError and a batch failing validation as IPCError.  Callers
+        # key their "malformed request" handling on ArrowInvalid.
+        raise pa.ArrowInvalid(f"Malformed request IPC stream: {exc}") from exc
+    except OSError as exc:
+        # pyarrow reports damaged or short framing as a bare OSError
+        # (ArrowIOError) without an errno.  A failing transport raises a
+        # subclass (BrokenPipeError, ConnectionResetError, ...) or carries an
+        # errno; those are I/O failures, not malformed requests.
+        if type(exc) is not OSError or exc.errno is not None:
+            raise
+        raise pa.ArrowInvalid(f"Malformed request IPC stream: {exc}") from exc
     _current_request_metadata.set(custom_metadata)
     # Stash the batch for access-log enrichment -- but only when the
     # transport has not already captured the raw wire bytes, which are
